@@ -374,7 +374,9 @@ func (a *Allocation) WriteTo(p []byte, addr net.Addr) (n int, err error) {
 const rtpMTU = 1600
 
 func (a *Allocation) packetConnHandler(manager *Manager) {
-	buffer := make([]byte, rtpMTU)
+	// One spare byte so that a datagram larger than rtpMTU is seen as such instead of
+	// being silently truncated by the socket.
+	buffer := make([]byte, rtpMTU+1)
 
 	for {
 		n, srcAddr, err := a.relayPacketConn.ReadFrom(buffer)
@@ -382,6 +384,13 @@ func (a *Allocation) packetConnHandler(manager *Manager) {
 			manager.DeleteAllocation(a.fiveTuple)
 
 			return
+		}
+
+		if n > rtpMTU {
+			a.log.Debugf("Relay socket %s: datagram from %s exceeds %d bytes, dropping",
+				a.relayPacketConn.LocalAddr(), srcAddr, rtpMTU)
+
+			continue
 		}
 
 		a.log.Debugf("Relay socket %s received %d bytes from %s",
